@@ -448,6 +448,8 @@ static const char *flush_syms[] = {
 
 static const char *except_syms[] = {
 	"_Unwind_RaiseException",
+	"_Unwind_Resume_or_Rethrow",
+	"_Unwind_ForcedUnwind",
 };
 
 static const char *resolve_syms[] = {
